@@ -89,14 +89,16 @@ func (buf *BipBuffer) Claim(n int) []byte {
 // Commit n bytes of the previously claimed slice. Returns the committed chunk
 // at the tail of the buffer.
 func (buf *BipBuffer) Commit(n int) []byte {
-	if n == 0 {
-		buf.claimHead = 0
-		buf.claimTail = 0
-		return nil
-	}
 	toCommit := buf.claimTail - buf.claimHead
 	if toCommit > n {
 		toCommit = n
+	}
+	if toCommit == 0 {
+		// Nothing is committed (n == 0 or the claim was empty): the cursors of the committed chunks stay where they are.
+		// Moving an empty buffer's head and tail to the claim would shrink the next claim it can grant.
+		buf.claimHead = 0
+		buf.claimTail = 0
+		return nil
 	}
 	var head, tail int
 	if buf.Committed() == 0 {
